@@ -656,6 +656,20 @@ class C04(EvalProp):
             doc = g.doc(3, False, 0)
             path = g.r.choice([b'$[*]', b'$.*', b'$..*', b'$..[*]', b'$.*.*', b'$[*][*]', b'$..a[*]', b'$.list[*]', b'$[0:]', b'$..[0:2]'])
             cs.append(Case('w%d' % i, path, [doc, g.doc(2, False, 0), doc], meta={'nsteps': 2}))
+        # functions handed parts of the document itself: an aggregate after a single-valued path receives the document's own
+        # array (json.Number and float64 elements, nested arrays); filter functions receive members and containers
+        r = g.r
+        for i in range(max(40, n // 40)):
+            def num():
+                x = r.choice(gens.NUM_POOL)
+                return ('j', r.choice(gens.JNUM_POOL)) if r.random() < 0.5 else ('n', x)
+            arr = ('a', [num() if r.random() < 0.8 else r.choice([('s', b'x'), ('a', [num()]), ('z',)]) for _ in range(r.randint(0, 5))])
+            doc = ('o', [(b'prices', arr), (b'nested', ('a', [arr, ('a', [num()])])), (b'one', num())])
+            ag = r.choice(gens.AGG_FUNCS)
+            ff = r.choice(['id', 'wrap', 'twice', 'tn'])
+            path = r.choice(['$.prices.%s()' % ag, '$.nested[0].%s()' % ag, '$.nested[*].%s()' % ag, '$.prices[*].%s()' % ag, '$.prices.%s().%s()' % (ff, ag),
+                             '$.nested.%s()' % ag, '$[?(@.%s() > 1)]' % ag, '$.prices.%s()' % ff, '$..prices.%s()' % ag])
+            cs.append(Case('fa%d' % i, path.encode(), [doc, doc], [ff], [ag], r.random() < 0.2, meta={'nsteps': 2, 'family': 'functions-on-document-parts'}))
         return cs
 
     def project(self, o, c):
